@@ -240,4 +240,9 @@ theorem withdraw_window (xs : List (Int × Int)) : ∀ (s : WState), s.w.dailyLi
     have := ih (wstep s x) (by rw [key.1]; exact hl) key.2.1 key.2.2
     exact ⟨this.1, by rw [this.2, key.1]⟩
 
+/-! ### the numbers of the property text -/
+
+/-- "within a day" -/
+theorem a_day_is_86400_seconds : Mfi.Gen.DAILY_RESET_INTERVAL = 86400 := by decide
+
 end Mfi.Props.C12
